@@ -181,3 +181,33 @@ META["C10"] = dict(
     },
     assumptions=["provenance keys are not configuration", "SecretStr is masked in dumps by design (C20) and excluded"],
 )
+
+META["C20"] = dict(
+    title="Restricted and registered scalar types validate exactly, serialise losslessly",
+    level="exploration",
+    level_text="Runtime monitoring of the real type classes and parsers: restriction sets of 1-3 comparisons over the six "
+    "operators (int and float, and/or) with candidates around every bound (incl. integral floats, bools, numeric strings, huge "
+    "ints, non-finite floats, junk) judged by an independent predicate evaluation, through the cast T(v), argv and config; "
+    "regex types against re.match; every built-in registered type with extreme values round-tripped through dump->parse and "
+    "serializer->argv, bare and inside Optional/List/Dict; a secret monitor greps every dump/print_config/save/error/help output.",
+    level_note="Trusted: operator/re semantics of CPython as the meaning of the restriction; value lists for registered types "
+    "are finite samples (plus random members). Restriction sets are a sharded sample of the 5,000-set space per run.",
+    shards=g(4, 16),
+    budget=g(40, 240),
+    technique="independent predicate oracle on restricted types + round-trip monitor on registered types + output scanner for secrets",
+    rule="distinct cases: restriction set (base, comparisons, join); regex; (registered type, value class, value); (secret shape, "
+    "token). Evaluations count individual cast / round-trip judgements. Non-trivial: every case reaches a verdict.",
+    gates={
+        "mon.restriction_sets": g(60, 1500),
+        "mon.restricted_number.cast": g(1000, 30000),
+        "mon.restricted_number.parser.argv": g(300, 8000),
+        "mon.restricted_number.parser.config": g(300, 8000),
+        "st.number.accepted": g(200, 5000), "st.number.rejected": g(200, 5000),
+        "mon.restricted_string.cast": g(100, 300),
+        "st.string.accepted": g(30, 60), "st.string.rejected": g(50, 150),
+        "mon.registered.config_roundtrip": g(400, 4000),
+        "mon.registered.argv_roundtrip": g(100, 1000),
+        "mon.secret.outputs_scanned": g(100, 1000),
+    },
+    assumptions=["numeric strings are judged only on the direct cast (argv/config text is typed by the loader first)"],
+)
